@@ -95,6 +95,9 @@ func main() {
 		} else {
 			worldWorker()
 		}
+	case "refserver":
+		initHits()
+		refServer()
 	case "schedone":
 		initHits()
 		schedOne()
